@@ -57,6 +57,12 @@ def run(tier, seed):
         rows2, g2 = gen.sim(SPEC, "Flavors", "FlavorsSim.cfg", {}, num=walks, depth=20, seed=seed * 100 + k, timeout=3000)
         stimuli += to_stim(rows2)
         sims.append(g2)
+    # directed histories: a wide component shared by sibling flavors (NextWide of Flavors.tla), every script of the family
+    rows3, g3 = gen.bfs(SPEC, "Flavors", "FlavorsWide.cfg", {}, timeout=3000)
+    if tier == "quick":
+        rows3 = rows3[seed % 4::4]
+    stimuli += to_stim(rows3)
+    sims.append(g3)
     for i, s in enumerate(stimuli):
         s["id"] = i + 1
     open_feats = {f["feature"]: f for f in common.load_findings(PROP) if f.get("status") == "open"}
